@@ -3,11 +3,11 @@ package zz_verif_sim
 // Plans, traces, the executor, bubbles and statistics.
 
 import (
-	"runtime"
 	"encoding/json"
 	"fmt"
 	"hash/fnv"
 	"os"
+	"runtime"
 	"sort"
 	"strings"
 	"testing"
